@@ -100,11 +100,11 @@ def small_cases(ctx):
 
 
 SUBS = [
-    Sub(name="planted", body=body, strategy=lambda ctx: _sys_with_orders("none"), quick=360, thorough=20000,
+    Sub(name="planted", body=body, strategy=lambda ctx: _sys_with_orders("none"), quick=300, thorough=20000,
         lanes=("f64",), quick_shards=3, rule="planted-solution systems under 3..5 drawn object/constraint orders"),
-    Sub(name="perturbed", body=body, strategy=lambda ctx: _sys_with_orders("some"), quick=360, thorough=20000,
+    Sub(name="perturbed", body=body, strategy=lambda ctx: _sys_with_orders("some"), quick=600, thorough=30000,
         lanes=("f64",), quick_shards=3, rule="partly inconsistent systems under 3..5 drawn orders"),
-    Sub(name="free", body=body, strategy=lambda ctx: _sys_with_orders("all"), quick=240, thorough=12000,
+    Sub(name="free", body=body, strategy=lambda ctx: _sys_with_orders("all"), quick=450, thorough=20000,
         lanes=("f64",), quick_shards=3, rule="unplanted systems under 3..5 drawn orders"),
     Sub(name="small", body=body, cases=small_cases, lanes=("f64",), exhaustive=True, exhaustive_quick=False,
         quick_shards=3,
